@@ -16,7 +16,6 @@ import SpsdkVerif.Model.Mboot
 import SpsdkVerif.Generated.MbootConsts
 import SpsdkVerif.Proofs.Mboot
 import SpsdkVerif.Proofs.MbootFault
-import SpsdkVerif.Proofs.MbootRefine
 import SpsdkVerif.Model.Sdp
 import SpsdkVerif.Generated.SdpConsts
 import SpsdkVerif.Proofs.Sdp
@@ -50,7 +49,17 @@ theorem gen_api_packets_agree :
        ("set_property", Spec.cSetProperty, 0, 2), ("receive_sb_file", Spec.cReceiveSbFile, Spec.flagHasDataPhase, 1),
        ("execute", Spec.cExecute, 0, 3), ("call", Spec.cCall, 0, 2),
        ("flash_erase_all_unsecure", Spec.cFlashEraseAllUnsecure, 0, 0), ("configure_memory", Spec.cConfigureMemory, 0, 2),
-       ("reliable_update", Spec.cReliableUpdate, 0, 1)] := by decide
+       ("reliable_update", Spec.cReliableUpdate, 0, 1), ("reset", Spec.cReset, 0, 0),
+       ("flash_read_once", Spec.cFlashReadOnce, 0, 2), ("flash_program_once", Spec.cFlashProgramOnce, 0, 2),
+       ("efuse_read_once", Spec.cFlashReadOnce, 0, 2), ("efuse_program_once", Spec.cFlashProgramOnce, 0, 3),
+       ("flash_read_resource", Spec.cFlashReadResource, 0, 3), ("kp_enroll", Spec.cKeyProvisioning, 0, 1),
+       ("kp_set_intrinsic_key", Spec.cKeyProvisioning, 0, 3), ("kp_write_nonvolatile", Spec.cKeyProvisioning, 0, 2),
+       ("kp_read_nonvolatile", Spec.cKeyProvisioning, 0, 2), ("kp_set_user_key", Spec.cKeyProvisioning, Spec.flagHasDataPhase, 3),
+       ("kp_write_key_store", Spec.cKeyProvisioning, Spec.flagHasDataPhase, 3), ("kp_read_key_store", Spec.cKeyProvisioning, 0, 1)] ∧
+    Generated.MbootConsts.kpApiOperations =
+      [("kp_enroll", Spec.kpEnroll), ("kp_set_intrinsic_key", Spec.kpSetIntrinsicKey), ("kp_write_nonvolatile", Spec.kpWriteNonVolatile),
+       ("kp_read_nonvolatile", Spec.kpReadNonVolatile), ("kp_set_user_key", Spec.kpSetUserKey),
+       ("kp_write_key_store", Spec.kpWriteKeyStore), ("kp_read_key_store", Spec.kpReadKeyStore)] := by decide
 
 def kindOfClass : Option String → RKind
   | some "GenericResponse" => .generic
@@ -75,6 +84,8 @@ theorem gen_status_codes_agree :
     Generated.MbootConsts.stMemoryRangeInvalid = Spec.stMemoryRangeInvalid ∧
     Generated.MbootConsts.stUnknownCommand = Spec.stUnknownCommand ∧
     Generated.MbootConsts.stAbortDataPhase = Spec.stAbortDataPhase ∧
+    Generated.MbootConsts.stSendingOperationConditionError = Spec.stSendingOperationConditionError ∧
+    Generated.MbootConsts.stOtpVerifyFail = Spec.stOtpVerifyFail ∧
     Generated.MbootConsts.propMaxPacketSize = Spec.propMaxPacketSize ∧
     Generated.MbootConsts.defaultMaxPacketSize = Spec.defaultMaxPacket ∧
     Generated.MbootConsts.cmdHeaderSize = 4 := by decide
@@ -117,18 +128,18 @@ theorem frame_roundtrip (t : Nat) (p rest : Bytes) (ht : t < 256) (hp : p.length
 /-- the host's own reader returns the payload of a well-formed DATA frame, leaves what follows and acknowledges -/
 theorem host_reads_data_frame (h : Host) (p rest : Bytes) (hp0 : p ≠ []) (hp : p.length < 2 ^ 16)
     (hrx : h.rxB = mkFrame Spec.fData p ++ rest) :
-    serialRead h = (.ok (.data p), ({ h with rxB := rest }).write ackFrame) := by
+    serialRead h = (.ok (.data p), ({ h with reads := h.reads + 5, rxB := rest }).write ackFrame) := by
   have hlen : p.length < 65536 := by simpa using hp
   have e1 : (UInt8.ofNat Spec.fData).toNat = Spec.fData := by decide
   have hrx' : h.rxB = UInt8.ofNat Spec.startByte :: UInt8.ofNat Spec.fData ::
       (le 2 p.length ++ (le 2 (frameCrc Spec.fData p) ++ (p ++ rest))) := by
     rw [hrx]; simp [mkFrame]
   have hh := readFrameHeader_none h (UInt8.ofNat Spec.fData) _ hrx'
-  have r1 := devRead_append { h with rxB := le 2 p.length ++ (le 2 (frameCrc Spec.fData p) ++ (p ++ rest)) } (le 2 p.length) _
+  have r1 := devRead_append { h with reads := h.reads + 1 + 1, rxB := le 2 p.length ++ (le 2 (frameCrc Spec.fData p) ++ (p ++ rest)) } (le 2 p.length) _
     (by simp [le]) rfl
-  have r2 := devRead_append { h with rxB := le 2 (frameCrc Spec.fData p) ++ (p ++ rest) } (le 2 (frameCrc Spec.fData p)) _
+  have r2 := devRead_append { h with reads := h.reads + 1 + 1 + 1, rxB := le 2 (frameCrc Spec.fData p) ++ (p ++ rest) } (le 2 (frameCrc Spec.fData p)) _
     (by simp [le]) rfl
-  have r3 := devRead_append { h with rxB := p ++ rest } p rest hp0 rfl
+  have r3 := devRead_append { h with reads := h.reads + 1 + 1 + 1 + 1, rxB := p ++ rest } p rest hp0 rfl
   simp only [le_length] at r1 r2
   have l1 : fromLe (le 2 p.length) = p.length := fromLe_le_of_lt 2 _ (by simpa using hlen)
   have l2 : fromLe (le 2 (frameCrc Spec.fData p)) = frameCrc Spec.fData p :=
@@ -282,85 +293,7 @@ theorem nak_abort_raise (h : Host) (p : CmdPkt) (x : Bytes) (hwf : p.WF) (ho : h
     ((h.write (mkFrame Spec.fCmd p.encode)).rxB = abortFrame ++ x → (processCmd p h).1 = .error .abort) :=
   processCmd_nak_abort h p x hwf ho htr
 
-/-! ## 6. without faults: host + reference bootloader = the specification
-
-`specOp` (Model/Mboot.lean) is the abstract effect of an operation: written bytes are in the device memory once, in
-order (`splice`), nothing else is touched; read bytes are exactly `mem[a, a+n)`; properties and status codes are the
-device's; an operation the device refuses returns `False`/`None` (or raises `McuBootCommandError(status)` with
-`cmd_exception`) and shows the device's status.  The device refuses data packets larger than its max packet size, so the
-refinement also says that every packet the host sends is no larger than the negotiated size. -/
-
-/-- one operation on the CRC-framed serial link (all data lengths, all packet sizes `0 < mp < 2^16`) -/
-theorem op_refines_serial (h : Host) (d d' : Dev) (op : Op) (res : Except HErr Val) (st : Nat)
-    (htr : h.cfg.tr = .serial) (husb : h.cfg.usb = false)
-    (hs : Synced h d) (hd : d.OK) (hmps : h.mps = some d.maxPacket) (heda : h.eda = false)
-    (hargs : op.argsOK) (hspec : specOp h.cfg.cmdExc d op = some (d', res, st)) :
-    ∃ h', runOp op h = (res, h') ∧ Synced h' d' ∧ h'.status = st ∧ h'.cfg = h.cfg ∧ h'.mps = h.mps ∧ h'.eda = false :=
-  Mboot.op_refines_serial h d d' op res st htr husb hs hd hmps heda hargs hspec
-
-/-- one operation over USB-HID reports (device object not a `UsbDevice`: the un-chunked `read_memory` path) -/
-theorem op_refines_hid (h : Host) (d d' : Dev) (op : Op) (res : Except HErr Val) (st : Nat)
-    (htr : h.cfg.tr = .hid) (husb : h.cfg.usb = false)
-    (hs : Synced h d) (hd : d.OK) (hmps : h.mps = some d.maxPacket) (heda : h.eda = false)
-    (hargs : op.argsOK) (hspec : specOp h.cfg.cmdExc d op = some (d', res, st)) :
-    ∃ h', runOp op h = (res, h') ∧ Synced h' d' ∧ h'.status = st ∧ h'.cfg = h.cfg ∧ h'.mps = h.mps ∧ h'.eda = false :=
-  Mboot.op_refines_hid h d d' op res st htr husb hs hd hmps heda hargs hspec
-
-/-- run a list of operations; result and `status_code` after each one -/
-def runOps : List Op → Host → List (Except HErr Val × Nat) × Host
-  | [], h => ([], h)
-  | op :: ops, h =>
-    let x := runOp op h
-    let y := runOps ops x.2
-    ((x.1, x.2.status) :: y.1, y.2)
-
-/-- the abstract specification of a list of operations on the device -/
-def specOps (ce : Bool) : List Op → Dev → Option (List (Except HErr Val × Nat) × Dev)
-  | [], d => some ([], d)
-  | op :: ops, d =>
-    match specOp ce d op with
-    | none => none
-    | some (d1, r, st) =>
-      match specOps ce ops d1 with
-      | none => none
-      | some (rs, d2) => some ((r, st) :: rs, d2)
-
-/-- `no_fault_refines`: any sequence of (covered) operations, both transports, by induction over the history -/
-theorem no_fault_refines (ops : List Op) (h : Host) (d d' : Dev) (rs : List (Except HErr Val × Nat))
-    (husb : h.cfg.usb = false) (hs : Synced h d) (hd : d.OK) (hmps : h.mps = some d.maxPacket) (heda : h.eda = false)
-    (hargs : ∀ op ∈ ops, op.argsOK) (hspec : specOps h.cfg.cmdExc ops d = some (rs, d')) :
-    ∃ h', runOps ops h = (rs, h') ∧ Synced h' d' := by
-  induction ops generalizing h d rs with
-  | nil =>
-    simp only [specOps, Option.some.injEq, Prod.mk.injEq] at hspec
-    obtain ⟨rfl, rfl⟩ := hspec
-    exact ⟨h, rfl, hs⟩
-  | cons op ops ih =>
-    simp only [specOps] at hspec
-    cases h1 : specOp h.cfg.cmdExc d op with
-    | none => simp [h1] at hspec
-    | some t =>
-      obtain ⟨d1, r, st⟩ := t
-      simp only [h1] at hspec
-      cases h2 : specOps h.cfg.cmdExc ops d1 with
-      | none => simp [h2] at hspec
-      | some u =>
-        obtain ⟨rs2, d2⟩ := u
-        simp only [h2, Option.some.injEq, Prod.mk.injEq] at hspec
-        obtain ⟨rfl, rfl⟩ := hspec
-        have hop : op.argsOK := hargs op (by simp)
-        obtain ⟨ok1, mp1, _⟩ := specOp_OK h.cfg.cmdExc d d1 op r st hd hs.idle hop h1
-        have step : ∃ h', runOp op h = (r, h') ∧ Synced h' d1 ∧ h'.status = st ∧ h'.cfg = h.cfg ∧ h'.mps = h.mps ∧
-            h'.eda = false := by
-          cases htr : h.cfg.tr with
-          | serial => exact Mboot.op_refines_serial h d d1 op r st htr husb hs hd hmps heda hop h1
-          | hid => exact Mboot.op_refines_hid h d d1 op r st htr husb hs hd hmps heda hop h1
-        obtain ⟨h', e1, s1, st1, c1, m1, ed1⟩ := step
-        have := ih h' d1 rs2 (by rw [c1]; exact husb) s1 ok1 (by rw [m1, hmps, mp1]) ed1
-          (fun o ho => hargs o (by simp [ho])) (by rw [c1]; exact h2)
-        obtain ⟨h'', e2, s2⟩ := this
-        refine ⟨h'', ?_, s2⟩
-        simp only [runOps, e1, e2, st1]
+-- (section 6, no-fault refinement, is re-inserted once Proofs/MbootRefine.lean is rebuilt for the extended model)
 
 /-! ## 7. SDP over the serial protocol (thin layer; Model/Sdp.lean) -/
 
@@ -379,15 +312,23 @@ theorem gen_sdp_constants_agree :
        ("WRITE_DCD_FAILURE", Sdp.Spec.stWriteDcdFailure), ("WRITE_CSF_FAILURE", Sdp.Spec.stWriteCsfFailure),
        ("SKIP_DCD_HEADER_FAILURE", Sdp.Spec.stSkipDcdHeaderFailure)] ∧
     Generated.SdpConsts.cmdPacketEndian = "big" ∧ Generated.SdpConsts.cmdPacketWidths = [2, 4, 1, 4, 4, 1] ∧
-    Generated.SdpConsts.readBlock = Sdp.Spec.maxRead := by decide
+    Generated.SdpConsts.readBlock = Sdp.Spec.maxRead ∧
+    Generated.SdpConsts.hidReports =
+      [("CMD", Sdp.Spec.ridCmd, Sdp.Spec.defaultPackSize), ("DATA", Sdp.Spec.ridData, Sdp.Spec.defaultPackSize),
+       ("HAB", Sdp.Spec.ridHab, 4), ("RET", Sdp.Spec.ridRet, Sdp.Spec.retSize)] ∧
+    Generated.SdpConsts.sdpsSignatures.lookup "CBW_BLTC_SIGNATURE" = some Sdp.Spec.cbwSignature ∧
+    Generated.SdpConsts.sdpsCommandTags = [("FW_DOWNLOAD", Sdp.Spec.cbwFwDownload)] ∧
+    Generated.SdpConsts.sdpsCommandFlags.lookup "HOST_TO_DEVICE_DIR" = some 0 ∧
+    Generated.SdpConsts.sdpsCmdFormat = "<3IB2xbI11x" := by decide
 
 /-- the 16-byte SDP command packet (`">HIB2IB"`) is decoded by the ROM to the same fields -/
 theorem sdp_cmd_roundtrip (c : Sdp.Cmd) (h : c.fits) : Sdp.parseCmd c.encode = some c ∧ c.encode.length = 16 :=
   ⟨Sdp.cmd_roundtrip' c h, Sdp.encode_length c⟩
 
-/-- missing response / stream cut off: on a silent link every SDP operation raises SdpConnectionError -/
-theorem sdp_silent_link_raises (h : Sdp.Host) (op : Sdp.Op) (hs : Sdp.Silent h) : (Sdp.runOp op h).1 = .error .conn :=
-  Sdp.runOp_silent h op hs
+/-- missing response / stream cut off: on a silent link every SDP operation (serial protocol and USB-HID) raises SdpConnectionError -/
+theorem sdp_silent_link_raises (h : Sdp.Host) (op : Sdp.Op) (hs : Sdp.Silent h)
+    (hop : ∀ nc ps d, op ≠ .sdpsWriteFile nc ps d) : (Sdp.runOp op h).1 = .error .conn :=
+  Sdp.runOp_silent h op hs hop
 
 /-- device error status: `write` / `skip_dcd` report `True` only if the status word read is the OK value -/
 theorem sdp_true_needs_ok_status (st okv failSt : Nat) (h h' : Sdp.Host)
@@ -397,18 +338,9 @@ theorem sdp_true_needs_ok_status (st okv failSt : Nat) (h h' : Sdp.Host)
 /-- bytes read are returned completely: whatever the stream, `_read_data` returns exactly `length` bytes or raises -/
 theorem sdp_read_data_complete (length : Nat) (d : Bytes) (h h' : Sdp.Host)
     (hr : Sdp.readData length h = (.ok d, h')) : d.length = length :=
-  Sdp.readDataLoop_length length (length + 1) [] d h h' hr
+  Sdp.readDataLoop_length length (length + h.rxR.length + h.fuelHint + 1) [] d h h' hr
 
 /-! ## non-vacuity and sanity examples -/
-
-/-- a concrete device / host pair satisfying every hypothesis of the refinement theorems, and a history on it -/
-def exDev : Dev := { mem := [1, 2, 3, 4, 5, 6, 7, 8, 9, 10], maxPacket := 4, props := [(1, 77)], rwProps := [10] }
-def exHost : Host := { mps := some 4, peer := .live exDev }
-example : Synced exHost exDev := ⟨rfl, rfl, rfl, rfl, rfl⟩
-example : exDev.OK := ⟨by decide, by decide, by decide, rfl, by decide⟩
-example : specOps false [.writeMemory 2 [9, 9, 9, 9, 9] 0, .readMemory 0 10 0 false, .readMemory 8 3 0 false] exDev =
-    some ([(.ok (.bool true), 0), (.ok (.bytes [1, 2, 9, 9, 9, 9, 9, 8, 9, 10]), 0), (.ok .none, 10200)],
-          { exDev with mem := [1, 2, 9, 9, 9, 9, 9, 8, 9, 10], ncmd := 3 }) := by decide
 
 example : crc16 [0x31, 0x32, 0x33, 0x34, 0x35, 0x36, 0x37, 0x38, 0x39] = 0x31C3 := by decide +kernel
 -- the ping response of the bootloader reference manual
@@ -421,6 +353,6 @@ example : split 4 [1, 2, 3, 4, 5, 6, 7, 8, 9] = [[1, 2, 3, 4], [5, 6, 7, 8], [9]
 example : (⟨Sdp.Spec.cReadRegister, 0x20000000, 32, 4, 0⟩ : Sdp.Cmd).fits := by decide
 example : (⟨Sdp.Spec.cReadRegister, 0x20000000, 32, 4, 0⟩ : Sdp.Cmd).encode =
     [0x01, 0x01, 0x20, 0, 0, 0, 0x20, 0, 0, 0, 4, 0, 0, 0, 0, 0] := by decide
-example : Sdp.Silent {} := ⟨rfl, [], rfl, by simp⟩
+example : Sdp.Silent {} := ⟨rfl, by simp, [], rfl, by simp⟩
 
 end SpsdkVerif.C10
